@@ -29,6 +29,9 @@ P_C14_Order == X => (o.respFor = o.req /\ o.hostConnOf = o.conn /\ o.hostSeq = o
 P_C14_NoDuplicateOnHostFault == (o.e = "xfault") => (o.hostCount <= 1 /\ (o.clientStatus >= 500 \/ o.clientStatus = 0))
 \* an upload the client abandoned in the middle of a chunk is not relayed as if it were complete
 P_C14_AbandonedNotRelayed == (o.e = "xabort") => ~o.hostComplete
+\* after the host announced `Connection: close` and closed, a further request on the same client connection is either not
+\* answered at all (the proxy closed that connection too) or answered by the host: {"e":"xafter","gotResponse":b,"fromHost":b}
+P_C14_AfterHostClose == (o.e = "xafter") => (o.gotResponse => o.fromHost)
 Accepted == IF TLCGet("stats").diameter - 1 = Len(Rec) THEN TRUE
             ELSE PrintT(<<"UNMATCHED", TLCGet("stats").diameter, Len(Rec)>>) /\ FALSE
 =============================================================================
